@@ -555,6 +555,158 @@ def _contextvar(interp, args, kwargs):
     return ExtObj("contextvars.ContextVar", {"name": args[0] if args else "", "value": kwargs.get("default", MISSING), "sets": []})
 
 
+def _b_sum(interp, args, kwargs):
+    total: Any = args[1] if len(args) > 1 else kwargs.get("start", 0)
+    for v in interp.drain(args[0]):
+        total = interp.binop(__import__("ast").Add, total, v)
+    return total
+
+
+def _b_map(interp, args, kwargs):
+    fn = args[0]
+    its = [interp.get_iter(a) for a in args[1:]]
+
+    def gen():
+        while True:
+            row = []
+            for it_ in its:
+                ok, v = interp.next_value(it_)
+                if not ok:
+                    return
+                row.append(v)
+            yield interp.call(fn, row, {})
+
+    return AIter(gen(), "map")
+
+
+def _b_filter(interp, args, kwargs):
+    fn, src = args[0], interp.get_iter(args[1])
+
+    def gen():
+        while True:
+            ok, v = interp.next_value(src)
+            if not ok:
+                return
+            keep = interp.truth(v, "filter") if fn is None else interp.truth(interp.call(fn, [v], {}), "filter")
+            if keep:
+                yield v
+
+    return AIter(gen(), "filter")
+
+
+def _b_abs(interp, args, kwargs):
+    v = args[0]
+    return abs(v) if isinstance(v, (int, float)) else fresh_unknown("abs")
+
+
+def _b_callable(interp, args, kwargs):
+    return isinstance(args[0], (FuncRef, BoundMethod, ClassInfo, ExtRef, ExtMethod, MsgClass, SingleDispatch))
+
+
+def _b_chr(interp, args, kwargs):
+    return chr(args[0]) if isinstance(args[0], int) else fresh_unknown("chr")
+
+
+def _b_ord(interp, args, kwargs):
+    return ord(args[0]) if isinstance(args[0], str) and len(args[0]) == 1 else fresh_unknown("ord")
+
+
+def _partial(interp, args, kwargs):
+    return ExtObj("functools.partial", {"func": args[0], "args": tuple(args[1:]), "kwargs": dict(kwargs)})
+
+
+def _islice(interp, args, kwargs):
+    src = interp.get_iter(args[0])
+    rest = [a for a in args[1:]]
+    if len(rest) == 1:
+        start, stop, step = 0, rest[0], 1
+    else:
+        start, stop, step = (rest + [None, None])[0] or 0, rest[1], (rest[2] if len(rest) > 2 and rest[2] else 1)
+    if not all(isinstance(x, int) or x is None for x in (start, stop, step)):
+        raise interp.unsupported("islice with symbolic bounds")
+
+    def gen():
+        i = 0
+        nxt = start
+        while stop is None or i < stop:
+            ok, v = interp.next_value(src)
+            if not ok:
+                return
+            if i == nxt:
+                yield v
+                nxt += step
+            i += 1
+
+    return AIter(gen(), "islice")
+
+
+def _groupby(interp, args, kwargs):
+    src = interp.get_iter(args[0])
+    keyfn = kwargs.get("key", args[1] if len(args) > 1 else None)
+
+    def gen():
+        ok, cur = interp.next_value(src)
+        while ok:
+            k0 = interp.call(keyfn, [cur], {}) if keyfn is not None else cur
+            group = [cur]
+            while True:
+                ok, cur = interp.next_value(src)
+                if not ok:
+                    break
+                k1 = interp.call(keyfn, [cur], {}) if keyfn is not None else cur
+                if not interp.truth(interp.eq(k0, k1), "groupby-key"):
+                    break
+                group.append(cur)
+            yield (k0, AIter(iter(group), "group"))
+
+    return AIter(gen(), "groupby")
+
+
+def _defaultdict(interp, args, kwargs):
+    d = ADict([], kind="defaultdict")
+    d.shared = interp.init_depth > 0
+    d.factory = args[0] if args else None  # type: ignore[attr-defined]
+    return d
+
+
+def _copy(interp, args, kwargs):
+    v = args[0]
+    if isinstance(v, AList):
+        return AList(list(v.items), kind=v.kind, maxlen=v.maxlen)
+    if isinstance(v, ADict):
+        return ADict([[a, b] for a, b in v.pairs], kind=v.kind)
+    if isinstance(v, Obj):
+        return Obj(v.cls, dict(v.attrs), v.tuple_items)
+    if isinstance(v, Msg):
+        return copy_msg(interp, v)
+    return v
+
+
+def _dc_replace(interp, args, kwargs):
+    v = args[0]
+    if not isinstance(v, Obj):
+        raise interp.unsupported("dataclasses.replace on a non-dataclass")
+    vals = {n: v.attrs.get(n) for n, _d in interp.dataclass_fields(v.cls)}
+    vals.update(kwargs)
+    return interp.instantiate(v.cls, [], vals)
+
+
+def _logger(interp, args, kwargs):
+    return ExtObj("logger", {})
+
+
+def _noop(interp, args, kwargs):
+    return None
+
+
+def _lock(interp, args, kwargs):
+    return ExtObj("lock", {})
+
+
+def _nullcontext(interp, args, kwargs):
+    return ExtObj("nullcontext", {"value": args[0] if args else None})
+
+
 def _globals(interp, args, kwargs):
     return ExtObj("globals-dict")
 
@@ -692,6 +844,27 @@ _EXT = {
     "google.protobuf.proto.serialize_length_prefixed": _serialize_length_prefixed,
     "io.BufferedReader": _buffered_reader,
     "builtins.tuple.__new__": _tuple_new,
+    "builtins.sum": _b_sum,
+    "builtins.map": _b_map,
+    "builtins.filter": _b_filter,
+    "builtins.abs": _b_abs,
+    "builtins.callable": _b_callable,
+    "builtins.chr": _b_chr,
+    "builtins.ord": _b_ord,
+    "functools.partial": _partial,
+    "functools.cache": _identity,
+    "functools.lru_cache": lambda i, a, k: (a[0] if a and isinstance(a[0], FuncRef) else ExtRef("jstat.identity_decorator")),
+    "functools.wraps": lambda i, a, k: ExtRef("jstat.identity_decorator"),
+    "itertools.islice": _islice,
+    "itertools.groupby": _groupby,
+    "collections.defaultdict": _defaultdict,
+    "copy.copy": _copy,
+    "dataclasses.replace": _dc_replace,
+    "logging.getLogger": _logger,
+    "warnings.warn": _noop,
+    "threading.Lock": _lock,
+    "threading.RLock": _lock,
+    "contextlib.nullcontext": _nullcontext,
     "mimetypes.add_type": lambda i, a, k: i.emit("ext_write", target="mimetypes.add_type", key=a[1] if len(a) > 1 else None, value=a[0] if a else None),
 }
 
@@ -753,6 +926,10 @@ def getattr_ext(interp, obj: Any, name: str) -> Any:
             return ExtMethod(obj, "iterator", name)
         raise interp.exc("AttributeError", f"'generator' object has no attribute '{name}'")
     if isinstance(obj, FuncRef):
+        if name in ("setter", "getter") and obj.kind == "property":
+            return ExtMethod(obj, "property", name)
+        if name in ("cache_clear", "cache_info") and obj.cached:
+            return ExtMethod(obj, "cached_fn", name)
         if name == "__name__":
             return obj.info.name
         if name == "__qualname__":
@@ -775,6 +952,12 @@ def getattr_ext(interp, obj: Any, name: str) -> Any:
             return models_rdflib.getattr_(interp, obj, name)
         if obj.kind in ("io.stream", "io.BufferedReader", "io.out", "contextvars.ContextVar", "bytes:frame", "bytes:all", "bytes:header"):
             return ExtMethod(obj, obj.kind, name)
+        if obj.kind == "logger":
+            return ExtMethod(obj, "logger", name)
+        if obj.kind == "lock":
+            return ExtMethod(obj, "lock", name)
+        if obj.kind == "functools.partial":
+            return ExtMethod(obj, "partial", name)
         if name in obj.attrs:
             return obj.attrs[name]
         raise interp.exc("AttributeError", f"{obj.kind} has no attribute {name}")
@@ -1091,6 +1274,21 @@ def call_method(interp, em: ExtMethod, args: list, kwargs: dict) -> Any:
         from . import models_rdflib
 
         return models_rdflib.method(interp, em, args, kwargs)
+    if k == "property":
+        if em.name == "setter":
+            return ExtObj("property_setter", {"prop": em.recv})
+        return em.recv
+    if k == "cached_fn":
+        return None
+    if k == "logger":
+        interp.emit("log", method=em.name)
+        return None
+    if k == "lock":
+        interp.emit("lock", method=em.name)
+        return True if em.name == "acquire" else None
+    if k == "partial":
+        p_ = em.recv
+        return interp.call(p_.attrs["func"], list(p_.attrs["args"]) + list(args), {**p_.attrs["kwargs"], **kwargs})
     if k == "object_init":
         return None
     if k == "exc_init":
@@ -1481,6 +1679,11 @@ def getitem(interp, base: Any, idx: Any) -> Any:
     if isinstance(base, ADict):
         i = dict_find(interp, base, idx)
         if i is None:
+            if base.kind == "defaultdict" and getattr(base, "factory", None) is not None:
+                v = interp.call(base.factory, [], {})  # type: ignore[attr-defined]
+                _mut(interp, base, "defaultdict-missing")
+                base.pairs.append([idx, v])
+                return v
             interp.emit("raise", exc="KeyError")
             raise interp.exc("KeyError", idx)
         return base.pairs[i][1]
@@ -1779,6 +1982,11 @@ def isinstance_ext(interp, v: Any, cls: ExtRef) -> Any:
 
 
 def context_enter(interp, cm: Any) -> Any:
+    if isinstance(cm, ExtObj) and cm.kind == "lock":
+        interp.emit("lock", method="acquire")
+        return cm
+    if isinstance(cm, ExtObj) and cm.kind == "nullcontext":
+        return cm.attrs["value"]
     raise interp.unsupported(f"context manager {cm!r}")
 
 
